@@ -84,6 +84,22 @@ def run_group(ctx: Ctx, group: str, services=None) -> int:
                 o["ts"] = ts
                 obs.append(o)
                 expected[o["id"]] = c
+            # the same script on the Relevant Patient Information Query SCP (its own implementation of C-FIND; it takes at most one
+            # result from the handler: scripts with at most one yield are answered alike; the repository warning does not exist there)
+            # (one-step scripts only: that SCP never asks its handler for more; statuses its table knows: not 0xFF01, not 0xB001)
+            if svc == "FIND" and len(sc) == 1 and sc[0]["st"] not in ("WL", "P1"):
+                import scp_exec
+                scp_exec.FIND_SOP_OVERRIDE = scp_exec.RELEVANT_PATIENT_GENERAL
+                try:
+                    for ts in tss:
+                        o = execute(svc, sc, ts)
+                        o["id"] = len(obs) + 1
+                        o["ts"] = ts
+                        o["impl"] = "relevant-patient"
+                        obs.append(o)
+                        expected[o["id"]] = c
+                finally:
+                    scp_exec.FIND_SOP_OVERRIDE = None
     if ctx.violations:
         return ctx.finish(rule="model violated its own invariants")
     verdicts = validate_traces(ctx, "Trace_Scp", obs, timeout=3000)
@@ -91,7 +107,7 @@ def run_group(ctx: Ctx, group: str, services=None) -> int:
     for o in obs:
         v = verdicts[o["id"]][col]
         ctx.traces += 1
-        key = (o["svc"], o.get("ts", ""), tuple((s["k"], s["st"], s["ds"], s["sub"]) for s in o["script"]))
+        key = (o["svc"], o.get("impl", ""), o.get("ts", ""), tuple((s["k"], s["st"], s["ds"], s["sub"]) for s in o["script"]))
         ctx.case(key, nontrivial=len(o["rsp"]) >= 2 or any(s["k"] in ("raise", "abort") or s["st"] in ("DSNO", "BAD", "DSF", "UNK") or s["ds"] in ("obj", "unenc") for s in o["script"]))
         e = expected[o["id"]]
         if proj(o["rsp"]) != proj(e["expected"]) or (o["fin"] != "final") != (e["ended"] == "aborted"):
@@ -108,7 +124,7 @@ def run_group(ctx: Ctx, group: str, services=None) -> int:
             elif v.startswith("C20"):
                 sig = {"clause": v, "svc": o["svc"], "outcome": o["fin"], "cause": _last_step(o)}
             ctx.violation(sig,
-                          f"{o['svc']}: {v} on handler script {steps}: responses={[(hex(r['st']), r['step'], r['rem'], r['comp'], r['fail'], r['warn'], r['ds']) for r in o['rsp']]} fin={o['fin']} exc={o['exc']} failedlist_expected={o['failed_expected']}",
+                          f"{o['svc']}{' (' + o['impl'] + ' SCP)' if o.get('impl') else ''}: {v} on handler script {steps}: responses={[(hex(r['st']), r['step'], r['rem'], r['comp'], r['fail'], r['warn'], r['ds']) for r in o['rsp']]} fin={o['fin']} exc={o['exc']} failedlist_expected={o['failed_expected']}",
                           {"svc": o["svc"], "script": o["script"], "ts": o.get("ts", IMPLICIT)})
     ctx.cov["drift_total"] = drift
     for o in (obs[0], obs[len(obs) // 2], obs[-1]):
